@@ -289,6 +289,17 @@ def make_datasets(ctx):
         par.apply_filter()
         out["child-" + k] = dclab.new_dataset(par)
     out["basin"] = dclab.new_dataset(p2)
+    # mapped basin: the referrer's events are origin events [5, 1, 1, 7, 0, 11]
+    p3 = ctx.workdir / "c_ref_mapped.rtdc"
+    bmap = np.array([5, 1, 1, 7, 0, 11], dtype=np.uint64)
+    with dclab.RTDCWriter(p3, mode="reset") as hw:
+        import copy
+        meta = copy.deepcopy(gen.BASE_META)
+        meta["experiment"]["run identifier"] = "rid-c17-sub"
+        hw.store_metadata(meta)
+        hw.store_feature("area_um", gen.rows("area_um", [int(i) for i in bmap]))
+        hw.store_basin("bm", "file", "hdf5", [str(p1)], basin_feats=["deform"], basin_map=bmap)
+    out["basin-mapped"] = dclab.new_dataset(p3)
     return out
 
 
@@ -307,10 +318,11 @@ def part_c(ctx):
         for feat in ("deform", "area_um"):
             if feat not in ds:
                 continue
-            for aname, acc in accessors.items():
+            for aname, acc, nacc in [(k, v, n) for k, v in accessors.items() for n in (1, 2)]:
                 before = np.array(ds[feat][:], copy=True)
                 try:
-                    a = acc(ds[feat])
+                    for _ in range(nacc):    # earlier accesses may fill caches
+                        a = acc(ds[feat])
                     if isinstance(a, np.ndarray) and a.ndim:
                         try:
                             a[0] = 12345.0
@@ -323,7 +335,7 @@ def part_c(ctx):
                     wrote = common.err_class(e)
                 after = np.array(ds[feat][:], copy=True)
                 leaked = not np.array_equal(before, after, equal_nan=True)
-                ctx.case(("C", kind, feat, aname), nontrivial=wrote in ("ok", "err:readonly"))
+                ctx.case(("C", kind, feat, aname, nacc), nontrivial=wrote in ("ok", "err:readonly"))
                 ctx.stat(f"C:{wrote}")
                 if leaked:
                     ctx.violation("spec", f"in-place modification of ds['{feat}'] obtained via "
@@ -336,6 +348,49 @@ def part_c(ctx):
                     lines.append(f"arr {policy} 3,4,5 ; r p0=9 r")
                     expect.append("arr 3,4,5 | " + wrote + " | arr "
                                   + ("9,4,5" if leaked else "3,4,5"))
+    # non-scalar features: image / mask / stored contour / contour computed lazily from the mask
+    # (LazyContourList) / trace, on file datasets and hierarchy children
+    dclab = common.import_dclab()
+    pn = ctx.workdir / "c_ns.rtdc"
+    gen.make_rtdc(pn, list(range(8)), feats=["deform", "area_um", "image", "mask", "contour",
+                                              "trace"])
+    pm = ctx.workdir / "c_ns_mask.rtdc"
+    gen.make_rtdc(pm, list(range(8)), feats=["deform", "area_um", "mask"])
+    nss = {"hdf5-ns": dclab.new_dataset(pn), "hdf5-maskonly": dclab.new_dataset(pm)}
+    for k in list(nss):
+        par = dclab.new_dataset(pn if k == "hdf5-ns" else pm)
+        par.filter.manual[::3] = False
+        par.apply_filter()
+        nss["child-" + k] = dclab.new_dataset(par)
+    for kind, dsn in nss.items():
+        for feat in ("image", "mask", "contour", "trace"):
+            if feat not in dsn:
+                continue
+            for nacc in (1, 2):
+                def get(i=1):
+                    if feat == "trace":
+                        return dsn["trace"]["fl1_raw"][i]
+                    return dsn[feat][i]
+                try:
+                    before = np.array(get(), copy=True)
+                    for _ in range(nacc):
+                        a = get()
+                    try:
+                        a[0] = 1 if a.dtype == bool else 77
+                        wrote = "ok"
+                    except ValueError:
+                        wrote = "err:readonly"
+                    after = np.array(get(), copy=True)
+                    leaked = not np.array_equal(before, after)
+                except Exception as e:  # noqa
+                    ctx.note(f"C17 part C: {kind}/{feat} raised {e!r}"[:160])
+                    continue
+                ctx.case(("C-ns", kind, feat, nacc), nontrivial=True)
+                ctx.stat(f"Cns:{wrote}")
+                if leaked:
+                    ctx.violation("spec", f"in-place modification of ds['{feat}'][i] on a {kind} "
+                                          f"dataset changes later reads",
+                                  {"part": "C", "kind": kind, "feat": feat, "accesses": nacc})
     # results of analysis entry points
     ds = dss["hdf5"]
     for name, fn in [("kde_scatter", lambda: ds.get_kde_scatter("area_um", "deform")),
@@ -366,14 +421,15 @@ def part_c(ctx):
 
 
 def part_d(ctx):
+    """hashfile across rewrites; returns model lines / expectations (hit|miss pattern)"""
     common.import_dclab()
     from dclab import util
     util.hashfile.cache_clear()
     p = ctx.workdir / "hash.bin"
     t = 1_600_000_000
-    bad = 0
-    for step in range(ctx.n(40, 300)):
-        kind = ctx.rng.choice(["same", "same", "size", "again", "args"])
+    lines, expect = ["cap 1000"], [None]
+    for step in range(ctx.n(60, 90)):        # < 100 distinct keys: no LRU eviction involved
+        kind = ctx.rng.choice(["same", "same", "size", "size-same-mtime", "again", "args"])
         if kind == "same" or not p.exists():
             size = p.stat().st_size if p.exists() else 64
             p.write_bytes(bytes(ctx.rng.randrange(256) for _ in range(size)))
@@ -383,31 +439,53 @@ def part_d(ctx):
             p.write_bytes(bytes(ctx.rng.randrange(256) for _ in range(ctx.rng.randint(1, 300))))
             t += 7
             os.utime(p, ns=(t * 10**9, t * 10**9))
+        elif kind == "size-same-mtime":
+            # modified in place, other size, time stamp restored (rsync -t, touch -r, coarse clocks)
+            old = p.stat().st_size
+            new = old
+            while new == old:
+                new = ctx.rng.randint(1, 300)
+            with open(p, "r+b") as fd:
+                fd.truncate(0)
+                fd.write(bytes(ctx.rng.randrange(256) for _ in range(new)))
+            os.utime(p, ns=(t * 10**9, t * 10**9))
         kw = {}
         if kind == "args":
             kw = {"blocksize": ctx.rng.choice([16, 64, 65536]), "count": ctx.rng.choice([0, 1, 2])}
-        got = util.hashfile(p, **kw)
+        hits0 = util.hashfile.cache_info().hits
+        try:
+            got = util.hashfile(p, **kw)
+        except Exception as e:  # noqa
+            got = common.err_class(e)
+        hit = util.hashfile.cache_info().hits > hits0
         data = p.read_bytes()
         bs, cnt = kw.get("blocksize", 65536), kw.get("count", 0)
         want = hashlib.md5(data if not cnt else data[:bs * cnt]).hexdigest()
-        ctx.case(("D", step, kind), nontrivial=kind in ("same", "size"))
+        ctx.case(("D", step, kind), nontrivial=kind in ("same", "size", "size-same-mtime"))
         ctx.stat("D:" + kind)
         if got != want:
-            bad += 1
             ctx.violation("spec", "hashfile returned a stale/wrong hash after a file rewrite "
                                   f"({kind})", {"part": "D", "step": step, "kind": kind, "kw": kw})
             break
-    return bad
+        st = p.stat()
+        # the model's key: (path, (mtime_ns, size), keyword arguments) — mirror of the decorator
+        parts = ["call", blist(b"hashfile"), "-", "-", "P", enc_leaf(str(p)),
+                 "P", enc_leaf(st.st_mtime_ns), "P", enc_leaf(st.st_size)]
+        for k in sorted(kw):
+            parts += ["K", blist(k.encode()), enc_leaf(kw[k])]
+        lines.append(" ".join(parts))
+        expect.append(("hit" if hit else "miss", None))
+    return lines, expect
 
 
 def run(ctx):
     la, ea = part_a(ctx)
     lb, eb = part_b(ctx)
     lc, ec = part_c(ctx)
-    part_d(ctx)
+    ld, ed = part_d(ctx)
     if not ctx.lean_ok:
         return
-    lines, expect = la + lb + lc, ea + eb + ec
+    lines, expect = ld + la + lb + lc, ed + ea + eb + ec
     out = ctx.lean("C17", lines)
     diffs = []
     for ln, ex, got in zip(lines, expect, out):
@@ -415,7 +493,7 @@ def run(ctx):
             continue
         if isinstance(ex, tuple):
             m = got.split()
-            have = (m[0], int(m[1].split("=")[1]))
+            have = (m[0], int(m[1].split("=")[1]) if ex[1] is not None else None)
             if have != ex:
                 diffs.append((ln[:120], ex, got))
             if "old=collides" in got:
